@@ -31,10 +31,11 @@ const (
 	hNewB
 	hTickWAL
 	hTickPrimary
+	hDestroyG // destroy bucket G (written by wM); appended last: committed replay files number the operations
 	hNumOps
 )
 
-var hNames = []string{"wF", "wF'", "wFy", "wV", "wV'", "wV2", "wM", "newB", "tickWAL", "tickPrimary"}
+var hNames = []string{"wF", "wF'", "wFy", "wV", "wV'", "wV2", "wM", "newB", "tickWAL", "tickPrimary", "destroyG"}
 
 const (
 	// 1H buckets: a year file has 8760 slots, so the all-time queries of every recovery stay cheap
@@ -66,6 +67,7 @@ type hWrite struct {
 	variable bool
 	times    []time.Time
 	tags     []int32
+	destroy  bool // not a write: the bucket is destroyed
 }
 
 var (
@@ -81,19 +83,21 @@ func writesOf(i, op int) []hWrite {
 	tag := func(r int) int32 { return int32((i+1)*100 + r) }
 	switch op {
 	case hWF, hWFagain:
-		return []hWrite{{i, kF, false, []time.Time{tS1}, []int32{tag(1)}}}
+		return []hWrite{{i, kF, false, []time.Time{tS1}, []int32{tag(1)}, false}}
 	case hWFyear:
-		return []hWrite{{i, kF, false, []time.Time{tY2}, []int32{tag(1)}}}
+		return []hWrite{{i, kF, false, []time.Time{tY2}, []int32{tag(1)}, false}}
 	case hWV:
-		return []hWrite{{i, kV, true, []time.Time{tV1, tV1.Add(20 * time.Minute)}, []int32{tag(1), tag(2)}}}
+		return []hWrite{{i, kV, true, []time.Time{tV1, tV1.Add(20 * time.Minute)}, []int32{tag(1), tag(2)}, false}}
 	case hWVagain:
-		return []hWrite{{i, kV, true, []time.Time{tV1.Add(30 * time.Minute)}, []int32{tag(1)}}}
+		return []hWrite{{i, kV, true, []time.Time{tV1.Add(30 * time.Minute)}, []int32{tag(1)}, false}}
 	case hWV2:
-		return []hWrite{{i, kV, true, []time.Time{tV2}, []int32{tag(1)}}}
+		return []hWrite{{i, kV, true, []time.Time{tV2}, []int32{tag(1)}, false}}
 	case hWM:
-		return []hWrite{{i, kF, false, []time.Time{tS2}, []int32{tag(1)}}, {i, kG, false, []time.Time{tS1}, []int32{tag(2)}}}
+		return []hWrite{{i, kF, false, []time.Time{tS2}, []int32{tag(1)}, false}, {i, kG, false, []time.Time{tS1}, []int32{tag(2)}, false}}
 	case hNewB:
-		return []hWrite{{i, kN, false, []time.Time{tS1}, []int32{tag(1)}}}
+		return []hWrite{{i, kN, false, []time.Time{tS1}, []int32{tag(1)}, false}}
+	case hDestroyG:
+		return []hWrite{{op: i, key: kG, destroy: true}}
 	}
 	return nil
 }
@@ -133,6 +137,12 @@ func runHistory(s crashSpec) *histRun {
 				vrt.Quiesce()
 			case hTickPrimary:
 				vrt.Fire(tickPrimaryd)
+				vrt.Quiesce()
+			case hDestroyG:
+				d.Mark("issue", fmt.Sprint(i))
+				d.Mark("destroying", kG)
+				_ = w.Destroy(kG) // an error (the bucket does not exist) makes this a no-op
+				d.Mark("ack", fmt.Sprint(i))
 				vrt.Quiesce()
 			default:
 				ws := writesOf(i, op)
@@ -214,6 +224,8 @@ func pointAt(s crashSpec, log []vos.Op, k int) crashPoint {
 				acked = n
 			case "created":
 				cp.created[op.Path2] = true
+			case "destroying":
+				cp.created[op.Path2] = false // from the moment its destruction is requested a bucket need not be queryable
 			case "op-begin":
 				curOp = n
 				sinceBegin = nil
@@ -244,7 +256,7 @@ func pointAt(s crashSpec, log []vos.Op, k int) crashPoint {
 		cp.phase = "idle"
 	default:
 		name := map[int]string{hWF: "fixed-write", hWFagain: "fixed-write", hWFyear: "fixed-write-new-year", hWV: "variable-write", hWVagain: "variable-continuation-write",
-			hWV2: "variable-write", hWM: "two-bucket-write", hNewB: "create-bucket+write", hTickWAL: "wal-tick", hTickPrimary: "checkpoint"}[s.Hist[curOp]]
+			hWV2: "variable-write", hWM: "two-bucket-write", hNewB: "create-bucket+write", hTickWAL: "wal-tick", hTickPrimary: "checkpoint", hDestroyG: "destroy-bucket"}[s.Hist[curOp]]
 		var walW, walSync, prim, meta, trunc, syncall int
 		for _, op := range sinceBegin {
 			isWAL := strings.HasSuffix(op.Path, ".walfile")
@@ -294,6 +306,10 @@ type bucketState struct {
 func applyWrites(ws []hWrite) map[string]*bucketState {
 	m := map[string]*bucketState{}
 	for _, w := range ws {
+		if w.destroy {
+			delete(m, w.key)
+			continue
+		}
 		b := m[w.key]
 		if b == nil {
 			b = &bucketState{fixed: map[int64]int32{}}
@@ -475,8 +491,12 @@ func judge(cp crashPoint, r *recovered, where string) (v verdicts) {
 	lo := applyWrites(cp.acked)
 	hi := applyWrites(append(append([]hWrite{}, cp.acked...), cp.inflight...))
 	inflightKeys := map[string]bool{}
+	destroying := map[string]bool{}
 	for _, w := range cp.inflight {
 		inflightKeys[w.key] = true
+		if w.destroy {
+			destroying[w.key] = true
+		}
 	}
 	matchLo, matchHi := true, true
 	for _, k := range crashKeys {
@@ -489,6 +509,9 @@ func judge(cp crashPoint, r *recovered, where string) (v verdicts) {
 			if lo[k] != nil && !cp.created[k] {
 				// acknowledged data in a bucket whose creating call had returned is covered above; nothing else to say
 			}
+		}
+		if destroying[k] {
+			continue // the bucket is being destroyed: with its rows, without them and not queryable are all acceptable
 		}
 		rt := "fixed"
 		if k == kV {
@@ -601,7 +624,7 @@ func crashHistories(c *mc.Ctx, maxLen int, yield func(crashSpec)) {
 			return
 		}
 		for o := 0; o < hNumOps; o++ {
-			if len(cur) == 0 && (o == hTickWAL || o == hTickPrimary) {
+			if len(cur) == 0 && (o == hTickWAL || o == hTickPrimary || o == hDestroyG) {
 				continue // a tick with nothing written is a no-op
 			}
 			rec(append(cur, o))
@@ -618,6 +641,8 @@ func crashHistories(c *mc.Ctx, maxLen int, yield func(crashSpec)) {
 		{hWF, hWV, hWM, hNewB},
 		{hWFyear, hWF, hWFagain, hWM, hTickPrimary, hWFyear},
 		{hWV, hWV, hWVagain, hWVagain},
+		{hWM, hWF, hDestroyG, hWFagain},
+		{hWM, hTickPrimary, hWM, hDestroyG, hWV, hTickPrimary},
 	} {
 		yield(crashSpec{h, 1})
 		yield(crashSpec{h, 2})
